@@ -511,7 +511,8 @@ impl Cx {
     );
   }
 
-  fn decode_and_compare(&mut self, ctx: &str, form: &str, service: &Service, set: &BTreeSet<u32>, extra: &[u32]) -> Option<bool> {
+  /// `mism_sig`: signature used when the endpoint decodes to a different set; `more`: context for the case record.
+  fn decode_and_compare(&mut self, ctx: &str, form: &str, service: &Service, set: &BTreeSet<u32>, extra: &[u32], mism_sig: &str, more: &Value) -> Option<bool> {
     let data = endpoint_data(service);
     match catch(|| RevocationBitmap::try_from(service).map(|b| compare(&b, set, extra))) {
       Err(p) => {
@@ -525,12 +526,12 @@ impl Cx {
       Ok(Err(e)) => {
         self.rep.inc(&format!("decode_failed_{}", form));
         if form == "modern" {
-          self.undecodable(ctx, data.as_deref(), set, &e.to_string(), json!(null));
+          self.undecodable(ctx, data.as_deref(), set, &e.to_string(), more.clone());
         } else {
           self.rep.violation(
             &format!("{}-endpoint-undecodable", form),
             &format!("{}: the {} form of the endpoint of set {} is rejected: {} ; data = {}", ctx, form, preview(set), e, data.as_deref().map(head).unwrap_or_default()),
-            json!({"context": ctx, "set": preview(set), "endpoint_data": data.as_deref().map(head), "error": e.to_string()}),
+            json!({"context": ctx, "set": preview(set), "endpoint_data": data.as_deref().map(head), "error": e.to_string(), "more": more}),
           );
         }
         Some(false)
@@ -544,9 +545,9 @@ impl Cx {
           }
           Some(m) => {
             self.rep.violation(
-              &format!("roundtrip-mismatch:{}", form),
-              &format!("{}: {} endpoint of set {} decodes to a different set: {}", ctx, form, preview(set), m),
-              json!({"context": ctx, "set": preview(set), "endpoint_data": data.as_deref().map(head), "mismatch": m}),
+              mism_sig,
+              &format!("{}: {} endpoint expected to hold {} decodes to a different set: {}", ctx, form, preview(set), m),
+              json!({"context": ctx, "expected_set": preview(set), "endpoint_data": data.as_deref().map(head), "mismatch": m, "more": more}),
             );
             Some(false)
           }
@@ -647,7 +648,7 @@ impl Cx {
     }
 
     // ---- decode: modern
-    let ok = self.decode_and_compare("set", "modern", &service, set, &[]);
+    let ok = self.decode_and_compare("set", "modern", &service, set, &[], "roundtrip-mismatch:modern", &Value::Null);
     if ok == Some(true) {
       self.rep.inc("roundtrip_ok");
     }
@@ -656,7 +657,7 @@ impl Cx {
     if let Some(d) = &data {
       let legacy = vh::b64::std_encode_nopad(d.as_bytes());
       let ls = Service::from_json_value(json!({"id": url.to_string(), "type": TYPE, "serviceEndpoint": format!("{DATA_URL}{legacy}")})).expect("legacy service");
-      if self.decode_and_compare("set", "legacy", &ls, set, &[]) == Some(true) {
+      if self.decode_and_compare("set", "legacy", &ls, set, &[], "roundtrip-mismatch:legacy", &Value::Null) == Some(true) {
         self.rep.inc("legacy_ok");
       }
     }
@@ -893,7 +894,7 @@ impl Cx {
     // the initial endpoint must decode, else every later step fails for the same reason
     {
       let svc = doc.core().resolve_service(&target).cloned().expect("target present");
-      if self.decode_and_compare("history/initial", "modern", &svc, &model, &[]) != Some(true) {
+      if self.decode_and_compare("history/initial", "modern", &svc, &model, &[], "inserted-service-mismatch", &json!({"doc": doc.kind()})) != Some(true) {
         self.rep.inc("histories_aborted");
         return;
       }
@@ -1010,12 +1011,9 @@ impl Cx {
       let svc = doc.core().resolve_service(&target).cloned().expect("target present");
       let mut extra: Vec<u32> = touched.iter().rev().take(400).copied().collect();
       extra.extend(idx.iter().take(400).flat_map(|i| [i.wrapping_add(1), i.wrapping_sub(1)]));
-      let ok = self.decode_and_compare(&format!("history/after-{}", if revoke { "revoke" } else { "unrevoke" }), "modern", &svc, &model, &extra);
+      let opname = if revoke { "revoke" } else { "unrevoke" };
+      let ok = self.decode_and_compare(&format!("history/after-{}", opname), "modern", &svc, &model, &extra, &format!("batch-membership-mismatch:{}", opname), &case);
       if ok != Some(true) {
-        if ok == Some(false) && self.rep.get("decode_failed_modern") == 0 {
-          // mismatch already reported with the set; add the batch that produced it
-          self.rep.note("history_mismatch_case", case);
-        }
         self.rep.inc("histories_aborted");
         return;
       }
